@@ -779,3 +779,56 @@ Example header_set_unfixed_breaks :
                 exists h2 i2, header_set_field true (N.eqb 1) true 0 h (HAppend [OAllocSpace 8]) = Some (false, h2, i2) /\
                               d_bytes (h_data h2) = d_bytes (h_data h).
 Proof. do 2 eexists. split; [vm_compute; reflexivity|]. split; [vm_compute; reflexivity|]. do 2 eexists. split; vm_compute; reflexivity. Qed.
+
+(* ---- DBusMessage: the locked flag --------------------------------------------------------------------------- *)
+Section Msg.
+  Variable exact : bool.
+  Variable F : N -> bool.
+
+  Lemma with_locked_same m : with_locked (with_locked m true) (m_locked m) = m.
+  Proof. destruct m; reflexivity. Qed.
+
+  (* dbus_message_marshal: whatever happens, the message - its locked flag included - is what it was;
+     on success the data is header followed by body *)
+  Theorem msg_marshal_restores i m ok m' i' d :
+    msg_marshal exact F true i m = (ok, m', i', d) ->
+    m' = m /\ (ok = true -> d = d_bytes (h_data (m_header m)) ++ d_bytes (m_body m)).
+  Proof.
+    unfold msg_marshal, string_init. destruct (F i); [intros H; inversion H; subst; split; [reflexivity|discriminate]|].
+    set (hb := d_bytes (h_data (m_header m))). set (bb := d_bytes (m_body m)).
+    assert (Hwf0 : wf (mkD [] PAD)) by (unfold wf, dlen; simpl; split; [lia|reflexivity]).
+    destruct (copy exact F (i + 1) hb 0 (length hb) (mkD [] PAD) 0) as [[ok1 t1] i2] eqn:E1.
+    destruct ok1; [|intros H; inversion H; subst; rewrite with_locked_same; split; [reflexivity|discriminate]].
+    assert (Hh0 : 0 <= dlen (mkD [] PAD)) by lia. assert (Hh1 : 0 <= length hb) by lia. assert (Hh2 : length hb <= length hb - 0) by lia.
+    destruct (copy_ok exact F _ _ _ _ _ _ _ _ Hwf0 Hh0 Hh1 Hh2 E1) as (Hb1 & Hwf1 & _).
+    destruct (copy exact F i2 bb 0 (length bb) t1 (dlen t1)) as [[ok2 t2] i3] eqn:E2.
+    destruct ok2; [|intros H; inversion H; subst; rewrite with_locked_same; split; [reflexivity|discriminate]].
+    assert (Hb0 : dlen t1 <= dlen t1) by lia. assert (Hb2 : 0 <= length bb) by lia. assert (Hb3 : length bb <= length bb - 0) by lia.
+    destruct (copy_ok exact F _ _ _ _ _ _ _ _ Hwf1 Hb0 Hb2 Hb3 E2) as (Hbb & _ & _).
+    destruct (F i3); intros H; inversion H; subst; rewrite with_locked_same; (split; [reflexivity|]); [discriminate|].
+    intros _. rewrite Hbb, Hb1. unfold ins, dlen. simpl. rewrite Hb1. unfold ins. simpl.
+    rewrite !firstn_all, !skipn_all. rewrite !app_nil_r. reflexivity.
+  Qed.
+
+  (* a header edit never touches the locked flag, whatever it returns *)
+  Theorem msg_set_field_keeps_lock i m e ok m' i' :
+    msg_set_field exact F i m e = Some (ok, m', i') -> m_locked m' = m_locked m /\ m_body m' = m_body m.
+  Proof.
+    unfold msg_set_field. destruct (m_locked m) eqn:El; [intros H; inversion H; subst; auto|].
+    destruct (header_set_field exact F true i (m_header m) e) as [[[ok1 h1] i1]|]; [|discriminate].
+    intros H; inversion H; subst. simpl. auto.
+  Qed.
+End Msg.
+
+(* seeded defect C14_5 (the failure exits of dbus_message_marshal skip the restore): the body copy fails, the
+   message stays locked, and the next setter is refused although nothing is wrong with memory any more *)
+Example msg_marshal_unrestored_breaks :
+  let m := mkM (mkH (mkD (repeat 1%N 16) 24) 0) (mkD (repeat 2%N 4) 12) false in
+  exists m' i' d, msg_marshal true (N.eqb 2) false 0 m = (false, m', i', d) /\ m_locked m' = true /\
+                  msg_set_field true (fun _ => false) 0 m' (HReplace 0 [9]%N 0 1) = Some (false, m', 0%N) /\
+                  (exists i2 d2, msg_marshal true (N.eqb 2) true 0 m = (false, m, i2, d2)) /\
+                  (exists m2 i2, msg_set_field true (fun _ => false) 0 m (HReplace 0 [9]%N 0 1) = Some (true, m2, i2)).
+Proof.
+  do 3 eexists. split; [vm_compute; reflexivity|]. split; [reflexivity|]. split; [vm_compute; reflexivity|].
+  split; do 2 eexists; vm_compute; reflexivity.
+Qed.
